@@ -9,6 +9,7 @@ import (
 	"fmt"
 	"os"
 	"sort"
+	"strconv"
 
 	"wa-lang.org/wa/internal/3rdparty/wazero"
 	"wa-lang.org/wa/internal/3rdparty/wazero/api"
@@ -102,6 +103,15 @@ func (t *tracker) openTrace(path string, max int) (err error) {
 	t.maxEvents = max
 	t.event("reset", "ok")
 	return nil
+}
+
+// ev1 records the event "<op> <addr>" with the observed answer (formatting only when a trace is being written).
+func (t *tracker) ev1(op string, addr uint32, answer string) {
+	if t.ops == nil || t.truncated {
+		t.nEvents++
+		return
+	}
+	t.event(op+" "+strconv.FormatUint(uint64(addr), 10), answer)
 }
 
 // event appends one (op, observed answer) pair to the trace.
@@ -204,10 +214,10 @@ func (t *tracker) onFree(ctx context.Context, m api.Module, ptr, heapPtr uint32)
 		} else {
 			t.bad("free:not-allocated", fmt.Sprintf("free(%d): address was never returned by malloc", ptr))
 		}
-		t.event(fmt.Sprintf("free %d", ptr), "ok")
+		t.ev1("free", ptr, "ok")
 		return 0
 	}
-	t.event(fmt.Sprintf("free %d", ptr), "ok")
+	t.ev1("free", ptr, "ok")
 	if buf, ok := m.Memory().Read(ctx, ptr, b.size); ok {
 		for i := range buf {
 			buf[i] = poisonByte
@@ -241,7 +251,7 @@ func (t *tracker) onAlloc(ctx context.Context, m api.Module, b, count, release, 
 	answer := "ok"
 	if !ok {
 		t.bad("alloc:block-not-from-malloc", fmt.Sprintf("Block.HeapAlloc(%d,%d,%d) = %d which malloc did not return", count, release, size, b))
-		t.event(fmt.Sprintf("alloc %d", b), "not-malloced")
+		t.ev1("alloc", b, "not-malloced")
 		return
 	}
 	if blkInfo.isBlock {
@@ -270,7 +280,7 @@ func (t *tracker) onAlloc(ctx context.Context, m api.Module, b, count, release, 
 		}
 		t.st.ZeroChecked += len(buf) - 16
 	}
-	t.event(fmt.Sprintf("alloc %d", b), answer)
+	t.ev1("alloc", b, answer)
 }
 
 // rcOf reads the reference count from the REAL block header (the function under observation has not run yet).
@@ -291,10 +301,14 @@ func (t *tracker) onRetain(ctx context.Context, m api.Module, ptr uint32) {
 	if !ok || !b.isBlock {
 		_, was := t.freed[ptr]
 		t.bad("retain:block-not-live", fmt.Sprintf("Block.Retain(%d): not a live block (freed before: %v)", ptr, was))
-		t.event(fmt.Sprintf("retain %d", ptr), "dead")
+		t.ev1("retain", ptr, "dead")
 		return
 	}
-	t.event(fmt.Sprintf("retain %d", ptr), t.rcOf(ctx, m, ptr))
+	if t.ops != nil {
+		t.ev1("retain", ptr, t.rcOf(ctx, m, ptr))
+	} else {
+		t.nEvents++
+	}
 }
 
 func (t *tracker) onRelease(ctx context.Context, m api.Module, ptr uint32) {
@@ -307,14 +321,17 @@ func (t *tracker) onRelease(ctx context.Context, m api.Module, ptr uint32) {
 	if !ok || !b.isBlock {
 		_, was := t.freed[ptr]
 		t.bad("release:block-not-live", fmt.Sprintf("Block.Release(%d): not a live block (freed before: %v)", ptr, was))
-		t.event(fmt.Sprintf("release %d", ptr), "dead")
+		t.ev1("release", ptr, "dead")
 		return
 	}
-	rc := t.rcOf(ctx, m, ptr)
-	if rc == "0" {
+	if v, ok := m.Memory().ReadUint32Le(ctx, ptr); ok && v == 0 {
 		t.bad("release:count-already-zero", fmt.Sprintf("Block.Release(%d) with reference count 0", ptr))
 	}
-	t.event(fmt.Sprintf("release %d", ptr), rc)
+	if t.ops != nil {
+		t.ev1("release", ptr, t.rcOf(ctx, m, ptr))
+	} else {
+		t.nEvents++
+	}
 }
 
 // checkQuarantine: every byte of every quarantined (freed, never re-used) payload must still be the poison.
